@@ -435,3 +435,112 @@ func condLeaves(cond ssa.Value, val bool) []condFact {
 	}
 	return []condFact{{Cond: cond, Val: val}}
 }
+
+// chunkScanRule (T18): a loop that walks a slice in steps of a constant k and leaves when `i+k < len(x)` fails stops
+// one chunk early: when i+k == len(x) the last k bytes are never looked at (`<=`, or `i < len(x)`, covers them). The
+// rule reports such a loop unless the counter is used behind the loop to deal with the rest of x. Returns the number
+// of constant-step loops over a slice length that were examined.
+func (c *Ctx) chunkScanRule(rule string, fns []*ssa.Function) int {
+	n := 0
+	for _, f := range fns {
+		if f.Blocks == nil {
+			continue
+		}
+		for _, L := range naturalLoops(f) {
+			iff, ok := L.Header.Instrs[len(L.Header.Instrs)-1].(*ssa.If)
+			if !ok {
+				continue
+			}
+			bo, ok := iff.Cond.(*ssa.BinOp)
+			if !ok || (bo.Op != token.LSS && bo.Op != token.LEQ) {
+				continue
+			}
+			// right side: len(x) up to conversions
+			y := bo.Y
+			for i := 0; i < 4; i++ {
+				if cv, ok := y.(*ssa.Convert); ok {
+					y = cv.X
+				}
+			}
+			lc, ok := y.(*ssa.Call)
+			if !ok {
+				continue
+			}
+			if bi, ok := lc.Call.Value.(*ssa.Builtin); !ok || bi.Name() != "len" {
+				continue
+			}
+			coll := lc.Call.Args[0]
+			if _, isSlice := coll.Type().Underlying().(*types.Slice); !isSlice {
+				continue
+			}
+			// left side: the counter, or counter + k
+			var cur *ssa.Phi
+			var off int64
+			switch x := bo.X.(type) {
+			case *ssa.Phi:
+				cur = x
+			case *ssa.BinOp:
+				if x.Op == token.ADD {
+					if ph, ok := x.X.(*ssa.Phi); ok {
+						if k, ok := constInt(x.Y); ok {
+							cur, off = ph, k
+						}
+					} else if ph, ok := x.Y.(*ssa.Phi); ok {
+						if k, ok := constInt(x.X); ok {
+							cur, off = ph, k
+						}
+					}
+				}
+			}
+			if cur == nil || cur.Block() != L.Header {
+				continue
+			}
+			// constant step
+			var step int64
+			for _, e := range cur.Edges {
+				if inc, ok := e.(*ssa.BinOp); ok && inc.Op == token.ADD && inc.X == ssa.Value(cur) {
+					if k, ok := constInt(inc.Y); ok {
+						step = k
+					}
+				}
+			}
+			if step <= 0 {
+				continue
+			}
+			// the chunk looked at in the body starts at the counter itself (go/ssa's form of `for i := range x` tests
+			// i+1 < len and then uses i+1: that is a different loop)
+			usesCur := false
+			for _, r := range nonDebugRefs(cur) {
+				if !L.Body[r.Block()] {
+					continue
+				}
+				switch u := r.(type) {
+				case *ssa.IndexAddr:
+					usesCur = usesCur || (u.Index == ssa.Value(cur) && u.X == coll)
+				case *ssa.Index:
+					usesCur = usesCur || (u.Index == ssa.Value(cur) && u.X == coll)
+				case *ssa.Slice:
+					usesCur = usesCur || (u.Low == ssa.Value(cur) && u.X == coll)
+				}
+			}
+			if !usesCur {
+				continue
+			}
+			n++
+			construct := load.FuncName(f) + ":scan in steps of " + fmt.Sprint(step)
+			if bo.Op != token.LSS || off != step {
+				c.S.OK(rule, construct, c.pos(iff.Cond.Pos()), "the exit test covers the last chunk", false)
+				continue
+			}
+			// i+k < len(x) with step k: is the rest handled behind the loop?
+			tail := false
+			for _, r := range nonDebugRefs(cur) {
+				if !L.Body[r.Block()] {
+					tail = true
+				}
+			}
+			c.S.Check(tail, rule, construct, c.pos(iff.Cond.Pos()), "the rest behind the loop is handled with the counter", fmt.Sprintf("the loop walks the slice in steps of %d and stops when i+%d < len fails: when i+%d equals the length, the last %d bytes are never examined (the exit test should be <=)", step, off, off, step))
+		}
+	}
+	return n
+}
